@@ -506,6 +506,8 @@ struct TypeDef {
     is_enum: bool,
     gen: Gen,
     variants: Vec<Variant>,
+    /// rustc's inert `#[non_exhaustive]`: bit 0 on the type, bit 1 on every variant of an enum (std's Debug ignores it)
+    nonex: u8,
 }
 
 #[derive(Clone, Copy, PartialEq, Eq)]
@@ -722,6 +724,8 @@ impl TypeDef {
         } else {
             derive.to_string()
         };
+        let derive = if self.nonex & 1 != 0 { format!("{derive}    #[non_exhaustive]\n") } else { derive };
+        let vnonex = if self.nonex & 2 != 0 { "#[non_exhaustive] " } else { "" };
         if self.is_enum {
             let _ = write!(s, "    {derive}    pub enum {}{decl}{wh} {{\n", self.name);
             for v in &self.variants {
@@ -729,7 +733,7 @@ impl TypeDef {
                     (Some(a), Flavor::Dm) => attr_text(a),
                     _ => String::new(),
                 };
-                let _ = write!(s, "        {own}{}{},\n", v.name, self.render_fields(v, types, flavor, ""));
+                let _ = write!(s, "        {vnonex}{own}{}{},\n", v.name, self.render_fields(v, types, flavor, ""));
             }
             s.push_str("    }\n");
         } else {
@@ -1287,7 +1291,7 @@ fn gen_type(d: &mut Dice, depth: usize, cx: &mut Cx) -> usize {
         }
         cx.used_names.push(base.clone());
         cx.label("empty_enum");
-        cx.types.push(TypeDef { name: base, is_enum: true, gen: Gen::default(), variants: vec![] });
+        cx.types.push(TypeDef { name: base, is_enum: true, gen: Gen::default(), variants: vec![], nonex: 0 });
         return idx;
     }
     let with_attrs = d.chance(62);
@@ -1422,7 +1426,11 @@ fn gen_type(d: &mut Dice, depth: usize, cx: &mut Cx) -> usize {
     if !is_enum {
         variants[0].name = base.clone();
     }
-    cx.types.push(TypeDef { name: base, is_enum, gen, variants });
+    let nonex = if d.chance(8) { 1 + d.pick(if is_enum { 3 } else { 1 }) as u8 } else { 0 };
+    if nonex != 0 {
+        cx.label("non_exhaustive_attribute");
+    }
+    cx.types.push(TypeDef { name: base, is_enum, gen, variants, nonex });
     idx
 }
 
@@ -1499,6 +1507,7 @@ fn fixed() -> Vec<GenCase> {
         is_enum: false,
         gen: Gen::default(),
         variants: vec![Variant { name: name.into(), kind, fields, own_fmt: None }],
+        nonex: 0,
     };
     let i = || Ty::Leaf(Leaf::I32);
     vec![
